@@ -208,7 +208,8 @@ DEFAULT = Spell()
 
 # what a comment may contain: anything
 COMMENT_TEXTS = ["note", "2*3 = 6", "** star **", "a, b; c", "say \"hi\" to 'c'", "// slashes", "/* opener", ".if 0", ".endif", "r16 = tmp + @0",
-                 "label: nop", "trailing \\", "(unbalanced", "tab\there", "über µC", ".macro x", ".endm", "*", "x */* y", ";;;"]
+                 "label: nop", "trailing \\", "(unbalanced", "tab\there", "über µC", ".macro x", ".endm", "*", "x */* y", ";;;",
+                 "-" * 70, "=" * 140, "((( " * 30, "!~" * 40, "*" * 90, "+-" * 80 + " banner"]
 
 
 def expr_text(a, sp):
@@ -229,7 +230,7 @@ def expr_text(a, sp):
         elif k == "op":
             unary = i == 0 or toks[i - 1]["k"] in ("op", "lp", "fn")
             if unary:
-                out.append(t["s"])
+                out.append(t["s"] + ["", " ", "", "\t"][sp.ws])        # a blank may follow a prefix operator
             else:
                 s = sp.sep()
                 out.append(s + t["s"] + s)
@@ -254,13 +255,14 @@ def op_text(o, sp):
     if k == "s":
         return '"%s"' % o["text"]
     reg = sp.word(o["reg"])
+    gap = ["", " ", "", "\t"][sp.ws]                                   # blanks around the + / after the - of an index operand
     if o["mode"] == "none":
         return reg
     if o["mode"] == "inc":
-        return reg + "+"
+        return reg + gap + "+"
     if o["mode"] == "dec":
-        return "-" + reg
-    return reg + "+" + expr_text(o["q"], sp)
+        return "-" + gap + reg
+    return reg + gap + "+" + gap + expr_text(o["q"], sp)
 
 
 SEGDIR = {"code": ".cseg", "data": ".dseg", "eeprom": ".eseg"}
